@@ -260,3 +260,63 @@ func (p *Pool) Get() interface{} {
 	vrt.Acquire(&it.hb)
 	return it.v
 }
+
+// Cond mirrors sync.Cond. Wait releases L, parks until a Signal / Broadcast
+// issued AFTER the wait began reaches it, and re-acquires L. Signal wakes one
+// waiter (which one is the explorer's choice), Broadcast all of them; a
+// wake-up without a waiter is lost, as with the real primitive.
+type Cond struct {
+	L       Locker
+	waiters []*condWaiter
+	hb      vrt.SyncVar
+	ep      int64
+}
+
+type condWaiter struct{ woken bool }
+
+// NewCond mirrors sync.NewCond.
+func NewCond(l Locker) *Cond { return &Cond{L: l} }
+
+func (c *Cond) reset() {
+	if fresh(&c.ep) {
+		c.waiters, c.hb = nil, vrt.SyncVar{}
+	}
+}
+
+func (c *Cond) Wait() {
+	c.reset()
+	w := &condWaiter{}
+	c.waiters = append(c.waiters, w)
+	c.L.Unlock()
+	vrt.Block("Cond.Wait", uintptr(unsafe.Pointer(c)), func() bool { return w.woken })
+	vrt.Acquire(&c.hb)
+	c.L.Lock()
+}
+
+func (c *Cond) Signal() {
+	c.reset()
+	vrt.PointOp("Cond.Signal", uintptr(unsafe.Pointer(c)))
+	if len(c.waiters) == 0 {
+		return
+	}
+	k := 0
+	if len(c.waiters) > 1 {
+		k = vrt.Choose("cond", len(c.waiters))
+	}
+	vrt.ReleaseMerge(&c.hb)
+	c.waiters[k].woken = true
+	c.waiters = append(c.waiters[:k], c.waiters[k+1:]...)
+}
+
+func (c *Cond) Broadcast() {
+	c.reset()
+	vrt.PointOp("Cond.Broadcast", uintptr(unsafe.Pointer(c)))
+	if len(c.waiters) == 0 {
+		return
+	}
+	vrt.ReleaseMerge(&c.hb)
+	for _, w := range c.waiters {
+		w.woken = true
+	}
+	c.waiters = nil
+}
